@@ -40,6 +40,10 @@ type Pipe struct {
 	// Seg, if set, decides how many of the avail buffered bytes the next
 	// Read (asking for want) delivers; the result is clamped to [1, min].
 	Seg func(readIndex, avail, want int) int
+	// EOFWithData: the Read that delivers the last buffered byte of a stream
+	// whose writer has closed returns io.EOF TOGETHER with the data (which
+	// io.Reader allows) instead of on the next call.
+	EOFWithData bool
 	// CutAfter >= 0: the reader sees EOF once that many bytes were delivered.
 	CutAfter int
 	// FailWritesAfter >= 0: writes fail with EPIPE once that many bytes were accepted.
@@ -125,6 +129,9 @@ func (p *Pipe) read(b []byte) (int, error) {
 	vrt.ArrW(b[:n], "buffer bytes", "vpipe.Read")
 	p.buf = p.buf[n:]
 	p.TotalRead += n
+	if p.EOFWithData && p.wclosed && len(p.buf) == 0 {
+		return n, io.EOF
+	}
 	return n, nil
 }
 
@@ -170,6 +177,18 @@ func (p *Pipe) record(b []byte) {
 	p.Writes = append(p.Writes, WriteRec{Thread: vsched.CurThread(), Off: len(p.Written), N: len(b), Stamp: vsched.MakeStamp()})
 	p.Written = append(p.Written, b...)
 	p.buf = append(p.buf, b...)
+}
+
+// WriteAndCloseWrite writes b and ends the stream in one step, so that no
+// Read can see b's last byte without also seeing that the writer is gone
+// (free-running use only).
+func (p *Pipe) WriteAndCloseWrite(b []byte) (int, error) {
+	p.mu.Lock()
+	defer p.mu.Unlock()
+	n, err := p.write(b)
+	p.wclosed = true
+	p.cond.Broadcast()
+	return n, err
 }
 
 // CloseWrite ends the stream: the reader sees EOF after the buffered bytes.
